@@ -867,12 +867,21 @@ class Inliner:
         return {"k": "Lambda", "params": [], "body": d.get("body_raw", d["body"]), "recv": recv, "keep_decl": True}
 
     def guarded_rest(self, rest, lam):
+        try:
+            return self._guarded_rest(rest, lam)
+        except NoInline:
+            return None
+
+    def _guarded_rest(self, rest, lam):
         """The statements after the guard's declaration with the guard's action made explicit: at the end of the block and
         in front of every return inside it.  (What the guard does when an exception leaves the block is not represented.)
         None when the block is left in a way this rewriting does not cover."""
         def cleanup():
             body_i, _ = self.instantiate([], lam["body"], lam.get("recv"))
             out = ir.stmts(body_i)
+            if any(x.get("k") == "Return" for y in out for x in walk(y)):
+                # an early `return;` of the destructor ends the action, not the function the guard lives in
+                out, _ft = self.tail(out, lambda e: [], True)
             for x in out:
                 if isinstance(x, dict):
                     # runs inside a destructor: what it throws does not reach a handler around the guarded block
@@ -3059,8 +3068,17 @@ def fold_local_flags(body, facts):
             if c is not None:
                 taken = st.get("then") if c else st.get("else")
                 return stmt(taken, env) if taken is not None else env
-            e1 = stmt(st.get("then"), dict(env)) if st.get("then") is not None else dict(env)
-            e2 = stmt(st.get("else"), dict(env)) if st.get("else") is not None else dict(env)
+            # a plain test of a flag tells its value inside the branches
+            et, ee = dict(env), dict(env)
+            uc = ir.unwrap_all_casts(st["cond"])
+            neg = False
+            if isinstance(uc, dict) and uc.get("k") == "Un" and uc.get("op") == "!":
+                uc, neg = ir.unwrap_all_casts(uc.get("e")), True
+            if isinstance(uc, dict) and uc.get("k") == "Ref" and uc.get("d") == "local" and uc.get("id") in cands and id(uc) not in stmt_nodes:
+                et[uc["id"]] = not neg
+                ee[uc["id"]] = neg
+            e1 = stmt(st.get("then"), et) if st.get("then") is not None else et
+            e2 = stmt(st.get("else"), ee) if st.get("else") is not None else ee
             return merge([e1, e2])
         if k in ("While", "For", "Do", "RangeFor", "Switch"):
             killed = stored_in(st)
